@@ -6,6 +6,7 @@
 //!   vp list
 
 mod big;
+mod child;
 mod engine;
 mod gen;
 mod gen_text;
@@ -221,6 +222,10 @@ fn main() {
     let code = match args.get(0).map(|s| s.as_str()) {
         Some("run") => cmd_run(&args[1..]),
         Some("replay") => cmd_replay(&args[1..]),
+        Some("child") => match args.get(1).map(|s| s.as_str()) {
+            Some("c03") => props::c03::child_main(args.get(2).map(|s| s.as_str()).unwrap_or("")),
+            _ => 2,
+        },
         Some("selftest") => {
             selftest();
             println!("selftest ok ({})", BUILD);
